@@ -16,7 +16,7 @@ from pycaption.dfxp.extras import LegacyDFXPWriter, SinglePositioningDFXPWriter
 from pycaption.base import Caption, CaptionNode, CaptionSet, CaptionList
 from harness.fakesoup import dfxp_soup, FTag
 from harness.csbuild import build_set, StableHash, layout
-from harness.ref_text import text_of
+from harness.ref_text import text_of, printable, visible
 
 VAL_ALPHA = (34, 39, 38, 60, 62, 97, 59, 32)  # " ' & < > a ; space
 
@@ -386,4 +386,77 @@ def public_id_lang_value(cps, where, legacy):
         etree.fromstring(out.encode("utf-8"))
     except etree.XMLSyntaxError as e:
         return f"{'class name' if where == 0 else 'language code'} {v!r}: output is not well-formed XML ({e})"
+    return ""
+
+
+# --- characters in text: the fragment placed inside <p> is well-formed XML character data -------------------------
+def _text_fragment(s, w):
+    from harness.ref_text import decode_entities, XML_ENT
+    wr = DFXPWriter() if w == 0 else (LegacyDFXPWriter() if w == 1 else SinglePositioningDFXPWriter())
+    frag = wr._recreate_text(Caption(0, 1000000, [CaptionNode.create_text(s)]), None)
+    ok, _dec = decode_entities(frag, XML_ENT)
+    return "" if ok else "text is not well-formed XML character data (undeclared entity / bare & or <)"
+
+
+def text_chars(cps: list[int], w: int) -> str:
+    """
+    pre: printable(cps, 1, 3) and visible(text_of(cps)) and 0 <= w <= 2
+    post: _ == ""
+    """
+    return _text_fragment(text_of(cps), w)
+
+
+def text_amp(cps: list[int], w: int) -> str:
+    """
+    pre: printable(cps, 3, 3) and 0 <= w <= 2
+    post: _ == ""
+    """
+    return _text_fragment(text_of([38] + cps), w)
+
+
+def public_text_amp(cps, w):
+    from lxml import etree
+    s = text_of([38] + cps)
+    wr = DFXPWriter() if w == 0 else (LegacyDFXPWriter() if w == 1 else SinglePositioningDFXPWriter())
+    out = wr.write(CaptionSet({"en": CaptionList([Caption(0, 1000000, [CaptionNode.create_text(s)])])}))
+    try:
+        etree.fromstring(out.encode("utf-8"))
+    except etree.XMLSyntaxError as e:
+        return "strict XML parser: " + str(e)[:80]
+    return ""
+
+
+# --- balanced style nodes, nested or not: span markup stays balanced -----------------------------------------------
+def nested_spans(kinds: list[int], w: int) -> str:
+    """
+    pre: len(kinds) == 6 and all(0 <= k <= 3 for k in kinds) and 0 <= w <= 2
+    post: _ == ""
+    """
+    # kinds: 0 TEXT, 1 START italics, 2 START {'color': 'red'}, 3 END of the innermost open span; nesting depth <= 2
+    nodes = []
+    stack = []
+    ntext = 0
+    for idx, k in enumerate(kinds):
+        if k == 0:
+            nodes.append(CaptionNode.create_text("w" + "abcdef"[idx]))
+            ntext += 1
+        elif k == 3:
+            if not stack:
+                return ""
+            nodes.append(CaptionNode.create_style(False, stack.pop()))
+        else:
+            if len(stack) >= 2:
+                return ""
+            st = {"italics": True} if k == 1 else {"color": "red"}
+            stack.append(st)
+            nodes.append(CaptionNode.create_style(True, st))
+    if stack or ntext == 0:
+        return ""
+    wr = DFXPWriter() if w == 0 else (LegacyDFXPWriter() if w == 1 else SinglePositioningDFXPWriter())
+    frag = wr._recreate_text(Caption(0, 1000000, nodes), dfxp_soup())
+    err, _ = _fragment_ok(frag)
+    if err:
+        return err
+    if wr.open_span:
+        return "writer left a span open"
     return ""
